@@ -177,6 +177,7 @@ func runQuery(p *prolog.Interpreter, max int, names []string, query string, args
 }
 
 func runQueryCtx(ctx context.Context, p *prolog.Interpreter, max int, names []string, query string, args ...interface{}) (out outcome) {
+	markCurrent(query)
 	sols, err := p.QueryContext(ctx, query, args...)
 	if err != nil {
 		out.Err, out.GoErr = errTerm(err)
